@@ -197,13 +197,31 @@ fn c01(args: &Args, agg: &mut Aggregate) {
         let s = match strict::read(&base.bytes, &els) { Ok(s) => s, Err(w) => { o.violation = Some(format!("strict reader rejects: {}", w)); return o; } };
         let mut parts = Parts::of(&base.bytes, &s, &els);
         parts.relayout(rng);
+        // the inner header re-laid-out: another inner stream and key (protected values re-encoded in
+        // document order under the stream KeePass derives from that key), fields in another order
+        let mut want = base.db.clone();
+        let mut xml1 = s.xml.clone();
+        let mut inner_hdr = parts.payload[..parts.payload.len() - s.xml.len()].to_vec();
+        let mut inner_note = "kept".to_string();
+        if rng.chance(1, 2) {
+            let new_cipher: u32 = *rng.pick(&[0u32, 2, 3, 3]);
+            let klen = match new_cipher { 2 => 32, 3 => if rng.chance(1, 2) { 64 } else { 32 }, _ => 1 + rng.below(8) as usize };
+            let new_key = rng.bytes(klen);
+            if let Some((x, _n)) = crate::legacy::reprotect_with(&s.xml, &|n| crate::legacy::crate_kdbx4_stream(s.inner_cipher, &s.inner_key, n), &|n| crate::legacy::spec_stream(new_cipher, &new_key, n)) {
+                xml1 = x;
+                let (p_id, p_key) = (rng.below(s.attachments.len() as u64 + 1) as usize, rng.below(s.attachments.len() as u64 + 1) as usize);
+                inner_hdr = crate::frame::inner_header(&s.attachments, new_cipher, &new_key, p_id, p_key);
+                want.config.inner_cipher_config = match new_cipher { 2 => keepass::config::InnerCipherConfig::Salsa20, 3 => keepass::config::InnerCipherConfig::ChaCha20, _ => keepass::config::InnerCipherConfig::Plain };
+                inner_note = format!("{}->{} key {} bytes", s.inner_cipher, new_cipher, new_key.len());
+                o.tags.push(format!("inner:{}", match new_cipher { 2 => "salsa20", 3 => "chacha20", _ => "none" }));
+            }
+        }
         // XML surface variation inside the payload (after the inner header)
-        let inner_len = parts.payload.len() - s.xml.len();
-        let (xml2, used) = crate::xmlsurf::vary(&s.xml, rng);
-        parts.payload.truncate(inner_len);
+        let (xml2, used) = crate::xmlsurf::vary(&xml1, rng);
+        parts.payload = inner_hdr;
         parts.payload.extend_from_slice(&xml2);
         let file = parts.build();
-        o.input = format!("(layout fields {:?} partition {:?} end-field {} xml-variants {:?} creds {})", parts.fields.iter().map(|f| f.0).collect::<Vec<_>>(), parts.partition, parts.end_field.len(), used, base.creds.kind);
+        o.input = format!("(layout fields {:?} partition {:?} end-field {} inner {} xml-variants {:?} creds {})", parts.fields.iter().map(|f| f.0).collect::<Vec<_>>(), parts.partition, parts.end_field.len(), inner_note, used, base.creds.kind);
         for u in &used { o.tags.push(format!("xml:{}", u)); }
         o.tags.push(format!("blocks:{}", match parts.partition.len() { 0 | 1 => "1", 2..=4 => "2-4", _ => ">4" }));
         o.tags.push(format!("creds:{}", base.creds.kind));
@@ -211,7 +229,10 @@ fn c01(args: &Args, agg: &mut Aggregate) {
         match opened {
             Err(p) => o.violation = Some(format!("open panicked: {}", p)),
             Ok(Err(e)) => o.violation = Some(format!("a conforming layout of the same content does not open: {}", open_error_class(&e))),
-            Ok(Ok(d)) => if d != base.db { o.violation = Some(format!("a conforming layout opens to different content: {}", crate::diff::first_difference(&base.db, &d))); }
+            Ok(Ok(d)) => if d != want {
+                o.violation = Some(format!("a conforming layout opens to different content: {}", crate::diff::first_difference(&want, &d)));
+                if want.config.inner_cipher_config == keepass::config::InnerCipherConfig::Salsa20 && inner_note != "kept" { o.violation_class = Some("kdbx4-salsa20-key".into()); }
+            }
         }
         // framing correspondence on the re-laid-out file
         let dec = model.eval_with(&format!("(decrypt4 {} {})", hexatom(&file), elements_term(&els)), &oracle::serve);
@@ -432,10 +453,42 @@ fn c05(args: &Args, agg: &mut Aggregate) {
             }
         }
         let _ = accepted_same;
+        // tag sweeps: an authenticated byte is altered (ciphertext of one block, or a header bit with
+        // the SHA-256 recomputed) and one byte of the matching 32-byte tag is run through all 256
+        // values - a comparison that checks less than the whole tag (a fold, a prefix, a weak
+        // accumulator) accepts one of them
+        let n_sweeps = if exhaustive { 8 } else { 2 };
+        for sw in 0..n_sweeps {
+            let mut f = file.clone();
+            let (tag_at, kind) = if sw % 2 == 0 && !blocks.is_empty() && blocks[0].len() > 36 {
+                // block 0: tag at hl+64, data from hl+64+36
+                let dlen = blocks[0].len() - 36;
+                let i = hl + 64 + 36 + rng.below(dlen as u64) as usize;
+                f[i] ^= rng.range(1, 255) as u8;
+                (hl + 64, "sweep-block-tag")
+            } else {
+                let i = 12 + rng.below((hl - 12) as u64) as usize;
+                f[i] ^= 1 << rng.below(8);
+                let h = oracle::sha256(&f[..hl]);
+                f[hl..hl + 32].copy_from_slice(&h);
+                (hl + 32, "sweep-header-tag")
+            };
+            if kdf_cost(&f).map(|c| c > KDF_BUDGET).unwrap_or(false) { o.tags.push("skipped:kdf-cost".into()); continue; }
+            o.tags.push(format!("mutation:{}", kind));
+            let pos = tag_at + rng.below(32) as usize;
+            for v in 0..=255u8 {
+                f[pos] = v;
+                match catch(|| Database::open(&mut &f[..], base.creds.key())) {
+                    Err(p) => { o.violation = Some(format!("open of an altered file panicked ({}): {}", kind, p)); }
+                    Ok(Ok(d)) => if d != reference { o.violation = Some(format!("an altered file ({}: tag byte {} set to {}) opened to DIFFERENT content", kind, pos - tag_at, v)); } else { o.tags.push(format!("accepted-same:{}", kind)); },
+                    Ok(Err(_)) => {}
+                }
+            }
+        }
         o.nontrivial = true;
         o
     });
-    write_report(args, agg, "small saved databases re-framed into 1..4 HMAC blocks x 60 (quick) / 400 (thorough) alterations made without the key: single-byte substitutions anywhere (header, hash, HMAC, block HMACs, lengths, ciphertext), truncation at any offset and at block boundaries with and without the terminator, block swap/duplication/removal, header edits with the SHA-256 recomputed, appended tails, multi-byte ciphertext edits, swapped/zeroed check values; every mutant is opened with the right key (must fail or equal the original), every sixth is also decoded by the model and compared; each case is non-trivial; distinct = distinct file shape", serde_json::json!({"mutants_per_case": if exhaustive { 400 } else { 60 }}));
+    write_report(args, agg, "small saved databases re-framed into 1..4 HMAC blocks x 60 (quick) / 400 (thorough) alterations made without the key: single-byte substitutions anywhere (header, hash, HMAC, block HMACs, lengths, ciphertext), truncation at any offset and at block boundaries with and without the terminator, block swap/duplication/removal, header edits with the SHA-256 recomputed, appended tails, multi-byte ciphertext edits, swapped/zeroed check values; plus 2 (quick) / 8 (thorough) tag sweeps per case (an authenticated byte altered, then one byte of the matching HMAC run through all 256 values); every mutant is opened with the right key (must fail or equal the original), every sixth is also decoded by the model and compared; each case is non-trivial; distinct = distinct file shape", serde_json::json!({"mutants_per_case": if exhaustive { 400 } else { 60 }}));
 }
 
 // ---------------- C06: malformed input never panics ----------------
@@ -515,7 +568,8 @@ fn c06(args: &Args, agg: &mut Aggregate) {
         o.nontrivial = true;
         o
     });
-    write_report(args, agg, "streams: corpus-damage (every repository sample file of all three formats: every kind of prefix, random byte damage, extreme 32-bit length words in the first 300 bytes, random bytes, prefix plus noise; open, get_xml, get_version and open with arbitrary key-file bytes, each under catch_unwind) and kdbx4-structure (saved files rebuilt WITH the key by an independent builder after a structure-aware mutation: missing/duplicate/unknown/short/long header fields, damaged KDF dictionary, damaged inner header, truncated XML, ill-typed element text incl. short and over-range base64 time stamps, no terminator block, flipped compression flag, deep group nesting, end-field content; result class compared with the model's decrypt4); every case is non-trivial", serde_json::json!({}));
+    crate::legacy::c06_streams(agg, args);
+    write_report(args, agg, "streams: corpus-damage (every repository sample file of all three formats: every kind of prefix, random byte damage, extreme 32-bit length words in the first 300 bytes, random bytes, prefix plus noise; open, get_xml, get_version and open with arbitrary key-file bytes, each under catch_unwind) and kdbx4-structure (saved files rebuilt WITH the key by an independent builder after a structure-aware mutation: missing/duplicate/unknown/short/long header fields, damaged KDF dictionary, damaged inner header, truncated XML, ill-typed element text incl. short and over-range base64 time stamps, no terminator block, flipped compression flag, deep group nesting, end-field content; result class compared with the model's decrypt4), kdb-structure (generated KDB content laid out by the independent KDB writer, damaged at record level - extreme and off-by-one size words, unknown types, truncation, wrong group/entry counts, removed/duplicated/swapped records, wrong widths of fixed-width fields, level jumps - and then authenticated: content hash and encryption redone; result compared with the extracted KDB reader) and kdbx3-structure (independent KDBX 3.1 writer: truncated/ill-typed XML, extreme block size words, missing final block, empty stream, payload cut inside a block header or the stream start bytes, wrong block hash; result class compared with the extracted KDBX 3.1 reader); every case is non-trivial", serde_json::json!({}));
 }
 
 /// class of a panic message, for matching the known findings by site
